@@ -3,16 +3,41 @@
 
 /repo/src/gl64_t.cuh (current tree) is run through the host preprocessor twice (__CUDA_ARCH__ = 700 and 600,
 GL64_PARTIALLY_REDUCED off, #include lines removed); the members operator+= operator-= cneg mul(gl64_t) mul(uint32_t)
-reduce(uint32_t[4]) reduce() to() from() operator*=(both) sqr() are located by signature and symbolically executed:
-the C++ glue must consist of whitelisted trivial forms (declarations, lo()/hi(), -x, 0-MOD, (val==0), (int)flag,
-calls of the members above, return *this), the inline asm of the PTX subset of spec/Ptx.tla.  The result is one
-straight-line SSA program per operator and arch, printed by two back ends:
+reduce(uint32_t[4]) reduce() to() from() operator*=(both) sqr() lo() hi() are located by signature and symbolically
+executed.  The result is one straight-line SSA program per operator and arch, printed by two back ends:
   Gl64_gen.tla       width-parametric TLA+ (EXTENDS Ptx; registers mod Beta = Phi, CC.CF explicit)
   ptx_exec_gen.hpp   C++ (uint32_t/uint64_t, primitives of tools/ptx_prims.hpp) so that full-width cases can be run
 Operators: Add Sub Cneg Mul MulRaw Sqr MulW Red (xa, xb), Red4(t0,t1,t2,t3), and with every register-by-register
-product replaced by a free symbol q_k (in order of first use): MulFree(xa,xb,q1..q4), MulWFree(xa,xb,q1,q2) and, without
-the final to(), MulRawFree, MulWRawFree.
-Anything outside the whitelist raises ParseError (exit 3): callers degrade to 'model not derived from current source'."""
+32 x 32 product replaced by a free symbol q_k (in order of first use): MulFree(xa,xb,q1..q4), MulWFree(xa,xb,q1,q2) and,
+without the final to(), MulRawFree, MulWRawFree.
+
+WHAT IS TRANSLATED (anything else raises ParseError naming the statement; callers degrade to 'model not derived')
+
+PTX (integer subset of spec/Ptx.tla; T = u32 s32 u64 s64, B = b32 b64):
+  add sub addc subc [.cc] .T            mul.lo mul.hi .T    mul.wide.u32/.s32
+  mad.lo mad.hi [.cc] .T   madc.lo madc.hi [.cc] .T         mad.wide.u32/.s32
+  setp.{eq,ne}.{T,B}  setp.{lt,le,gt,ge}.T  setp.{lo,ls,hi,hs}.{u32,u64}       selp.{T,B}
+  and or xor .{pred,B}    not.{pred,B}    neg.{s32,s64}     shl shr .{T,B} (shr.s = arithmetic; amounts clamp)
+  min max .T    cvt.T.T    mov.{T,B,pred} reg|imm    mov.b64 d,{lo,hi}    mov.b64 {lo,hi},s
+  operands: %n  %[name]  named registers  immediates (decimal, 0x.., 0octal, optional - and U)
+  guards @%p / @!%p on every instruction (a guarded write needs an old value: Sel(p, new, old))
+  .reg .pred/.b32/.u32/.s32/.b64/.u64/.s64 %a, %b;  inside { } scopes that may span several asm statements
+asm statements: __asm__ [__volatile__] ( "template" ["more"] : outputs : inputs [: "memory"] ), constraints
+  "r" (32 bit) "l" (64 bit) "n" (integer constant expression), outputs "=" "+" "=&" "+&"; any number of instructions
+  per template; operands may be used any number of times.
+  RULES (deliberately conservative, unchanged):
+  * inputs are read at statement entry; every operand is its own register (nvcc gives each asm operand its own
+    virtual PTX register, so '&' is accepted and changes nothing); outputs are stored to the C++ object at the end;
+  * the carry flag CC.CF is NOT assumed to survive from one asm statement to the next: it is undefined at the start
+    of every asm statement, addc/subc/madc before a .cc instruction of the SAME template is an error;
+  * an output that is never written, a read of an unwritten register, a guarded write without old value are errors.
+C++ glue (whitelist): declarations of uint64_t uint32_t int int32_t int64_t unsigned bool (scalars, initialised or
+  not, and fixed arrays), assignments to such cells / val / x.val / arr[k], calls of the members above, return *this,
+  and expressions built from cells, val, x.val, arr[k], lo() hi() x.lo() x.hi() (their bodies are translated too),
+  integer literals, MOD and gl64_device::W (values parsed from the header), casts between the integer types (C++
+  conversion rules: truncation, zero / sign extension by the SOURCE type), unary - ~ !, comparisons == != < <= > >=
+  (usual arithmetic conversions, result bool), + - & | ^ on unsigned operands, << >> by a literal amount below the
+  width (>> of a signed value is arithmetic).  No *, /, %: products belong to the PTX where they are tracked."""
 import hashlib, os, re, shutil, subprocess, sys
 
 ARCHS = (700, 600)
@@ -20,7 +45,12 @@ HERE = os.path.dirname(os.path.abspath(__file__))
 
 
 class ParseError(Exception):
-    pass
+    located = False
+
+
+def short(s, n=110):
+    s = ' '.join(s.split())
+    return s if len(s) <= n else s[:n] + ' ...'
 
 
 # ------------------------------------------------------------------------------------------------ text handling
@@ -96,10 +126,13 @@ SIG = {  # member -> (signature regex, parameter kind)
     'muleq': (G + r'operator\s*\*=\s*\(\s*const\s+gl64_t\s*&\s*(\w+)\s*\)', 'obj'),
     'mulweq': (G + r'operator\s*\*=\s*\(\s*const\s+uint32_t\s+(\w+)\s*\)', 'u32'),
     'sqr': (G + r'sqr\s*\(\s*\)', None),
+    'lo': (r'uint32_t\s+lo\s*\(\s*\)', None),
+    'hi': (r'uint32_t\s+hi\s*\(\s*\)', None),
 }
 
 
 def members(pre):
+    """-> (member table, constant table {'MOD': (text, type), 'gl64_device::W': ...})."""
     m = re.search(r'class\s+gl64_t\s*\{', pre)
     if not m:
         raise ParseError('class gl64_t not found')
@@ -111,309 +144,707 @@ def members(pre):
             raise ParseError('member %s: %d definitions match its signature' % (key, len(ms)))
         body = cls[ms[0].end():close(cls, ms[0].end(), '{', '}')]
         out[key] = (ms[0].group(1) if kind else None, kind, body)
-    return out
+    km = re.findall(r'static\s+(?:const|constexpr)\s+uint64_t\s+MOD\s*=\s*([^;]+);', cls)
+    kw = re.findall(r'namespace\s+gl64_device\s*\{[^{}]*?\buint32_t\s+W\s*=\s*([^;]+);', pre)
+    if len(km) != 1:
+        raise ParseError('constant MOD: %d definitions "static const uint64_t MOD = ...;" in class gl64_t' % len(km))
+    if len(kw) != 1:
+        raise ParseError('constant gl64_device::W: %d definitions "uint32_t W = ...;"' % len(kw))
+    g = Gen({}, {})
+    consts = {}
+    for name, text, cty in (('MOD', km[0], 'u64'), ('gl64_device::W', kw[0], 'u32')):
+        try:
+            v, ty = g.expr({'#': 'k.', '@': 'this'}, text)
+            v = g.conv(v, ty, cty)
+        except ParseError as e:
+            raise ParseError('constant %s = %s: %s' % (name, short(text), e))
+        if v.val is None:
+            raise ParseError('constant %s = %s is not an integer constant expression' % (name, short(text)))
+        consts[name] = (v.val, cty)
+    return out, consts
 
 
-# ------------------------------------------------------------------------------------------------ symbolic execution
+# ------------------------------------------------------------------------------------------------ values
+BITS = {'r': 32, 'l': 64, 'f': 1}
+
+
 class V:
-    """an SSA value or constant: n = name / constant token, t = 'r' (.u32) 'l' (.u64) 'f' (flag, predicate) 'k' (literal)."""
-    def __init__(self, n, t):
-        self.n = n; self.t = t
+    """an SSA value: n = name, t = class 'r' (32-bit register) 'l' (64-bit) 'f' (predicate / carry flag, 0/1)
+    'q' (free product symbol); val = the bit pattern iff the value is a literal; org = 'Lo(xa)'-style origin."""
+    def __init__(self, n, t, val=None, org=None):
+        self.n = n; self.t = t; self.val = val; self.org = org
 
 
-K0 = V('0', 'k')
-CONSTS = {'MOD': 'l', 'NEGMOD': 'l', 'WC': 'r'}
-CTY = {'uint64_t': 'l', 'uint32_t': 'r', 'int': 'r'}
+def lit(val, t):
+    return V(None, t, val & ((1 << BITS[t]) - 1))
+
+
+def C(w):
+    return 'l' if w == 64 else 'r'
 
 
 def isconst(v):
-    return v.t == 'k' or v.n in CONSTS
+    return v.val is not None
 
 
+def sx(w, x):
+    return x - (1 << w) if (x >> (w - 1)) & 1 else x
+
+
+def _shs(w, x, n):
+    return (sx(w, x) >> min(n, w)) & ((1 << w) - 1)
+
+
+# the operators the C++ glue can fold on literals (PTX instructions are never folded): fn -> f(w, *bit patterns)
+PY = {
+    'addr': lambda w, x, y, c: (x + y + c) & ((1 << w) - 1),
+    'subr': lambda w, x, y, c: (x - y - c) & ((1 << w) - 1),
+    'neg': lambda w, x: (-x) & ((1 << w) - 1),
+    'notb': lambda w, x: ~x & ((1 << w) - 1),
+    'band': lambda w, x, y: x & y, 'bor': lambda w, x, y: x | y, 'bxor': lambda w, x, y: x ^ y,
+    'shl': lambda w, x, n: (x << min(n, w)) & ((1 << w) - 1), 'shr': lambda w, x, n: x >> min(n, w), 'shrs': _shs,
+    'seteq': lambda w, x, y: int(x == y), 'setne': lambda w, x, y: int(x != y),
+    'setlt': lambda w, x, y: int(x < y), 'setle': lambda w, x, y: int(x <= y),
+    'setgt': lambda w, x, y: int(x > y), 'setge': lambda w, x, y: int(x >= y),
+    'setlts': lambda w, x, y: int(sx(w, x) < sx(w, y)), 'setles': lambda w, x, y: int(sx(w, x) <= sx(w, y)),
+    'setgts': lambda w, x, y: int(sx(w, x) > sx(w, y)), 'setges': lambda w, x, y: int(sx(w, x) >= sx(w, y)),
+    'lo': lambda w, x: x & 0xffffffff, 'hi': lambda w, x: x >> 32,
+    'zext': lambda w, x: x, 'sext': lambda w, x: sx(32, x) & ((1 << 64) - 1),
+}
+
+TYPES = {'uint64_t': 'u64', 'uint32_t': 'u32', 'int': 's32', 'int32_t': 's32', 'int64_t': 's64', 'unsigned': 'u32',
+         'unsigned int': 'u32', 'long long': 's64', 'unsigned long long': 'u64', 'bool': 'bool'}
+TYPE_WORDS = set(' '.join(TYPES).split())
+
+
+def tcls(cty):
+    return 'l' if cty in ('u64', 's64') else 'r'
+
+
+def tbits(cty):
+    return 64 if cty in ('u64', 's64') else 32
+
+
+def tsigned(cty):
+    return cty in ('s32', 's64')
+
+
+# ------------------------------------------------------------------------------------------------ glue expressions
+TOK = re.compile(r'\s*(?:(0[xX][0-9a-fA-F]+|\d+)([uUlL]*)|([A-Za-z_]\w*(?:\s*::\s*[A-Za-z_]\w*)*)|'
+                 r'(==|!=|<=|>=|<<|>>|&&|\|\||->|[-+*/%&|^~!<>()\[\].,?:=]))')
+PREC = {'|': 1, '^': 2, '&': 3, '==': 4, '!=': 4, '<': 5, '<=': 5, '>': 5, '>=': 5, '<<': 6, '>>': 6, '+': 7, '-': 7}
+
+
+def tokenize(e):
+    out = []; i = 0
+    e = e.rstrip()
+    while i < len(e):
+        m = TOK.match(e, i)
+        if not m or m.end() == i:
+            raise ParseError('glue expression not whitelisted: ' + short(e))
+        if m.group(1) is not None:
+            out.append(('num', m.group(1), m.group(2)))
+        elif m.group(3) is not None:
+            out.append(('id', re.sub(r'\s+', '', m.group(3))))
+        else:
+            out.append(('op', m.group(4)))
+        i = m.end()
+    return out
+
+
+def lit_type(text, suf):
+    """C++ type of an integer literal (LP64)."""
+    val = int(text, 16) if text[:2].lower() == '0x' else int(text, 8) if len(text) > 1 and text[0] == '0' else int(text)
+    suf = suf.lower(); uns = 'u' in suf; lng = 'l' in suf; dec = text[:2].lower() != '0x' and not (len(text) > 1 and text[0] == '0')
+    cands = (['s32'] if not (uns or lng) else []) + (['u32'] if not lng and (uns or not dec) else []) + \
+            (['s64'] if not uns else []) + (['u64'] if uns or not dec else [])
+    for c in cands:
+        if val < (1 << (tbits(c) - (1 if tsigned(c) else 0))):
+            return val, c
+    raise ParseError('integer literal out of range: ' + text)
+
+
+class ExprParser:
+    def __init__(self, text):
+        self.text = text; self.t = tokenize(text); self.i = 0
+
+    def bad(self):
+        raise ParseError('glue expression not whitelisted: ' + short(self.text))
+
+    def peek(self, k=0):
+        return self.t[self.i + k] if self.i + k < len(self.t) else ('end', '')
+
+    def take(self, op=None):
+        tk = self.peek()
+        if op is not None and tk != ('op', op):
+            self.bad()
+        self.i += 1
+        return tk
+
+    def parse(self):
+        n = self.binary(0)
+        if self.peek()[0] != 'end':
+            self.bad()
+        return n
+
+    def binary(self, lvl):
+        l = self.unary()
+        while True:
+            tk = self.peek()
+            if tk[0] != 'op' or tk[1] not in PREC or PREC[tk[1]] < lvl:
+                return l
+            self.take()
+            r = self.binary(PREC[tk[1]] + 1)
+            l = ('bin', tk[1], l, r)
+
+    def typename(self):
+        """at '(' : the type name if the parenthesis holds exactly a type name, else None."""
+        k = 1; words = []
+        while self.peek(k)[0] == 'id' and self.peek(k)[1] in TYPE_WORDS | {'const'}:
+            if self.peek(k)[1] != 'const':
+                words.append(self.peek(k)[1])
+            k += 1
+        if words and self.peek(k) == ('op', ')') and ' '.join(words) in TYPES:
+            self.i += k + 1
+            return TYPES[' '.join(words)]
+        return None
+
+    def unary(self):
+        tk = self.peek()
+        if tk[0] == 'op' and tk[1] in ('-', '~', '!', '+'):
+            self.take()
+            return ('un', tk[1], self.unary())
+        if tk == ('op', '('):
+            ty = self.typename()
+            if ty:
+                return ('cast', ty, self.unary())
+            self.take()
+            n = self.binary(0)
+            self.take(')')
+            return n
+        if tk[0] == 'num':
+            self.take()
+            return ('num',) + lit_type(tk[1], tk[2])
+        if tk[0] != 'id':
+            self.bad()
+        self.take()
+        name = tk[1]
+        if name in TYPES and self.peek() == ('op', '('):          # functional cast
+            self.take()
+            n = self.binary(0)
+            self.take(')')
+            return ('cast', TYPES[name], n)
+        if self.peek() == ('op', '('):
+            if name not in ('lo', 'hi') or self.peek(1) != ('op', ')'):
+                self.bad()
+            self.i += 2
+            return ('member', None, name)
+        if self.peek() == ('op', '.'):
+            f = self.peek(1)
+            if f == ('id', 'val'):
+                self.i += 2
+                return ('field', name)
+            if f[0] == 'id' and f[1] in ('lo', 'hi') and self.peek(2) == ('op', '(') and self.peek(3) == ('op', ')'):
+                self.i += 4
+                return ('member', name, f[1])
+            self.bad()
+        if self.peek() == ('op', '['):
+            if self.peek(1)[0] != 'num' or self.peek(2) != ('op', ']'):
+                self.bad()
+            k = lit_type(self.peek(1)[1], self.peek(1)[2])[0]
+            self.i += 3
+            return ('index', name, k)
+        return ('id', name)
+
+
+# ------------------------------------------------------------------------------------------------ symbolic execution
 class Gen:
-    def __init__(self, mem, free=False):
-        self.mem = mem; self.free = free
-        self.ir = []          # (dst, type, fn, width|None, [arg tokens])
+    def __init__(self, mem, consts, free=False):
+        self.mem = mem; self.K = consts; self.free = free
+        self.ir = []          # (dst, class, fn, width|None, [V])
+        self.defs = {}        # dst -> (fn, width, [V])
         self.cells = {}       # C++ storage: key -> V | None (indeterminate)
-        self.ctype = {}
+        self.ctype = {}       # key -> 'u32' 's32' 'u64' 's64' 'bool'
         self.fid = 0
-        self.prods = {}; self.q = []
-        self.ptx = {}         # named PTX registers (predicates)
+        self.prods = {}; self.q = []; self.qdesc = []
+        self.scopes = [{}]    # PTX register scopes: name -> [class, V | None]
         self.depth = 0
+        self.cc = None
 
     def emit(self, t, fn, w, *args):
+        if fn == 'lo' and args[0].n in self.defs:               # (uint32_t)(x >> 32) is hi(x)
+            f2, w2, a2 = self.defs[args[0].n]
+            if f2 == 'shr' and w2 == 64 and a2[1].val == 32:
+                fn, args = 'hi', (a2[0],)
         n = 'v%d' % (len(self.ir) + 1)
-        self.ir.append((n, t, fn, w, [a.n for a in args]))
-        return V(n, t)
+        self.ir.append((n, t, fn, w, list(args)))
+        self.defs[n] = (fn, w, list(args))
+        org = None
+        if fn in ('lo', 'hi') and args[0].n in ('xa', 'xb'):
+            org = '%s(%s)' % (fn.capitalize(), args[0].n)
+        return V(n, t, org=org)
+
+    def gemit(self, t, fn, w, *args):
+        """glue operator: folded when every argument is a literal."""
+        if fn in PY and all(a.val is not None for a in args):
+            return lit(PY[fn](w, *[a.val for a in args]), t)
+        return self.emit(t, fn, w, *args)
 
     # ---- C++ glue
-    def call(self, key, arg=None):
+    def call(self, key, arg=None, this=None, caller=None):
         pname, kind, body = self.mem[key]
         self.depth += 1
         if self.depth > 6:
             raise ParseError('recursion in member calls')
         self.fid += 1
-        fr = {'#': 'f%d.' % self.fid}
+        fr = {'#': 'f%d.' % self.fid, '@': this or (caller['@'] if caller else 'this')}
         if kind == 'obj':
             fr[pname] = ('obj', arg)
         elif kind == 'arr':
             fr[pname] = ('arr', arg)
         elif kind:
-            self.decl(fr, pname, 'r', arg)
+            self.decl(fr, pname, kind, arg)
         for s in split_top(body, ';'):
             self.stmt(fr, s.strip())
         self.depth -= 1
+        return fr.get('ret')
 
-    def decl(self, fr, name, t, val=None):
+    def decl(self, fr, name, cty, val=None):
         key = fr['#'] + name
-        fr[name] = ('cell', key); self.ctype[key] = t; self.cells[key] = val
+        fr[name] = ('cell', key); self.ctype[key] = cty; self.cells[key] = val
 
     def lv(self, fr, e):
         """C++ lvalue -> storage key."""
         e = e.strip()
         if e == 'val':
-            return 'this.val'
+            return fr['@'] + '.val'
         m = re.fullmatch(r'(\w+)\s*\.\s*val', e)
         if m and fr.get(m.group(1), ('',))[0] == 'obj':
             return fr[m.group(1)][1] + '.val'
         m = re.fullmatch(r'(\w+)\s*\[\s*(\d+)\s*\]', e)
         if m and fr.get(m.group(1), ('',))[0] == 'arr':
-            key = '%s[%s]' % (fr[m.group(1)][1], m.group(2))
+            key = '%s[%s]' % (fr[m.group(1)][1], int(m.group(2)))
             if key not in self.cells:
                 raise ParseError('index out of range: ' + e)
             return key
         if re.fullmatch(r'\w+', e) and fr.get(e, ('',))[0] == 'cell':
             return fr[e][1]
-        raise ParseError('glue lvalue not whitelisted: ' + e)
+        raise ParseError('glue lvalue not whitelisted: ' + short(e))
 
     def load(self, fr, e):
-        v = self.cells[self.lv(fr, e)]
+        key = self.lv(fr, e)
+        v = self.cells[key]
         if v is None:
             raise ParseError('read of indeterminate ' + e)
-        return v
+        return v, self.ctype[key]
 
-    def rv(self, fr, e):
-        """C++ rvalue (whitelist of trivial forms) -> V."""
-        e = e.strip()
-        while e.startswith('(') and close(e, 1, '(', ')') == len(e) - 1:
-            e = e[1:-1].strip()
-        if re.fullmatch(r'\d+', e):
-            return V(e, 'k')
-        if e == 'MOD':
-            return V('MOD', 'l')
-        if re.fullmatch(r'0\s*-\s*MOD', e):
-            return V('NEGMOD', 'l')
-        if re.fullmatch(r'gl64_device\s*::\s*W', e):
-            return V('WC', 'r')
-        m = re.fullmatch(r'(?:(\w+)\s*\.\s*)?(lo|hi)\s*\(\s*\)', e)
-        if m:
-            return self.emit('r', m.group(2), None, self.load(fr, (m.group(1) + '.val') if m.group(1) else 'val'))
-        if re.fullmatch(r'val\s*==\s*0', e):
-            return self.emit('r', 'isz', None, self.load(fr, 'val'))
-        m = re.fullmatch(r'\(\s*(?:int|unsigned|unsigned\s+int|uint32_t|int32_t)\s*\)\s*(\w+)', e)
-        if m:
-            v = self.load(fr, m.group(1))
-            if v.t == 'l':                      # a narrowing cast keeps the low word
-                return self.emit('r', 'lo', None, v)
-        elif e.startswith('-'):
-            v = self.load(fr, e[1:])
-            if v.t != 'r':
-                raise ParseError('negation of a non-32-bit value: ' + e)
-            return self.emit('r', 'neg', None, v)
-        else:
-            v = self.load(fr, e)
-        return v
+    def conv(self, v, frm, to):
+        """C++ integral conversion of a value of type frm to type to."""
+        if to == 'bool':
+            return v if frm == 'bool' else self.gemit('r', 'setne', tbits(frm), v, lit(0, tcls(frm)))
+        if tbits(frm) == tbits(to):
+            return v
+        if tbits(to) == 32:
+            return self.gemit('r', 'lo', None, v)
+        return self.gemit('l', 'sext' if frm == 's32' else 'zext', None, v)
+
+    def expr(self, fr, text):
+        """C++ rvalue (whitelist) -> (V, C++ type)."""
+        return self.ev(fr, ExprParser(text).parse(), text)
+
+    def ev(self, fr, n, text):
+        k = n[0]
+        if k == 'num':
+            return lit(n[1], tcls(n[2])), n[2]
+        if k == 'id':
+            if n[1] in self.K:
+                return lit(self.K[n[1]][0], tcls(self.K[n[1]][1])), self.K[n[1]][1]
+            if n[1] in ('true', 'false'):
+                return lit(int(n[1] == 'true'), 'r'), 'bool'
+            return self.load(fr, n[1])
+        if k == 'field':
+            return self.load(fr, n[1] + '.val')
+        if k == 'index':
+            return self.load(fr, '%s[%d]' % (n[1], n[2]))
+        if k == 'member':
+            obj = fr['@']
+            if n[1] is not None:
+                if fr.get(n[1], ('',))[0] != 'obj':
+                    raise ParseError('glue expression not whitelisted: ' + short(text))
+                obj = fr[n[1]][1]
+            ret = self.call(n[2], this=obj)
+            if ret is None:
+                raise ParseError('member %s() does not consist of a return statement' % n[2])
+            return self.conv(ret[0], ret[1], 'u32'), 'u32'
+        if k == 'cast':
+            v, ty = self.ev(fr, n[2], text)
+            return self.conv(v, ty, n[1]), n[1]
+        if k == 'un':
+            v, ty = self.ev(fr, n[2], text)
+            if n[1] == '!':
+                return self.gemit('r', 'seteq', tbits(ty), v, lit(0, tcls(ty))), 'bool'
+            if ty == 'bool':
+                ty = 's32'                                     # integer promotion
+            if n[1] == '+':
+                return v, ty
+            return self.gemit(tcls(ty), 'neg' if n[1] == '-' else 'notb', tbits(ty), v), ty
+        if k == 'bin':
+            op = n[1]
+            (x, tx), (y, ty) = self.ev(fr, n[2], text), self.ev(fr, n[3], text)
+            tx = 's32' if tx == 'bool' else tx; ty = 's32' if ty == 'bool' else ty
+            if op in ('<<', '>>'):
+                if y.val is None or sx(tbits(ty), y.val) < 0 or y.val >= tbits(tx):
+                    raise ParseError('shift by a non-literal or out-of-range amount: ' + short(text))
+                if op == '<<' and tsigned(tx) and x.val is None:
+                    raise ParseError('<< on a signed value: ' + short(text))
+                fn = 'shl' if op == '<<' else 'shrs' if tsigned(tx) else 'shr'
+                return self.gemit(tcls(tx), fn, tbits(tx), x, lit(y.val, 'r')), tx
+            # usual arithmetic conversions
+            if tbits(tx) == tbits(ty):
+                ct = tx if not tsigned(tx) else ty
+            else:
+                ct = tx if tbits(tx) == 64 else ty
+            x, y = self.conv(x, tx, ct), self.conv(y, ty, ct)
+            w, t = tbits(ct), tcls(ct)
+            if op in ('==', '!=', '<', '<=', '>', '>='):
+                fn = {'==': 'seteq', '!=': 'setne', '<': 'setlt', '<=': 'setle', '>': 'setgt', '>=': 'setge'}[op]
+                if tsigned(ct) and op not in ('==', '!='):
+                    fn += 's'
+                return self.gemit('r', fn, w, x, y), 'bool'
+            if tsigned(ct) and (x.val is None or y.val is None):
+                raise ParseError('%s on signed operands: %s' % (op, short(text)))
+            if op in ('+', '-'):
+                return self.gemit(t, 'addr' if op == '+' else 'subr', w, x, y, lit(0, 'f')), ct
+            return self.gemit(t, {'&': 'band', '|': 'bor', '^': 'bxor'}[op], w, x, y), ct
+        raise ParseError('glue expression not whitelisted: ' + short(text))
 
     def stmt(self, fr, s):
+        try:
+            self.stmt_(fr, s)
+        except ParseError as e:
+            if e.located:
+                raise
+            e2 = ParseError('%s  [in statement: %s]' % (e, short(s, 160)))
+            e2.located = True
+            raise e2
+
+    def stmt_(self, fr, s):
         if not s or re.fullmatch(r'return\s+\*\s*this', s):
             return
         if s.startswith('__asm__'):
             return self.asm(fr, s)
-        m = re.fullmatch(r'(uint64_t|uint32_t|int)\s+(.*)', s, re.S)
+        m = re.fullmatch(r'return\s+(.*)', s, re.S)
         if m:
+            fr['ret'] = self.expr(fr, m.group(1))
+            return
+        m = re.fullmatch(r'(?:const\s+)?((?:unsigned\s+|long\s+)*\w+)\s+(?!=)(.*)', s, re.S)
+        if m and ' '.join(m.group(1).split()) in TYPES and re.match(r'[A-Za-z_]', m.group(2)):
+            cty = TYPES[' '.join(m.group(1).split())]
             for d in split_top(m.group(2), ','):
                 a = re.fullmatch(r'\s*(\w+)\s*\[\s*(\d+)\s*\]\s*', d)
-                b = re.fullmatch(r'\s*(\w+)\s*(?:=(.*))?', d, re.S)
+                b = re.fullmatch(r'\s*(\w+)\s*(?:=(?!=)(.*))?', d, re.S)
                 if a:
                     fr[a.group(1)] = ('arr', fr['#'] + a.group(1))
                     for i in range(int(a.group(2))):
                         self.cells['%s%s[%d]' % (fr['#'], a.group(1), i)] = None
-                        self.ctype['%s%s[%d]' % (fr['#'], a.group(1), i)] = CTY[m.group(1)]
+                        self.ctype['%s%s[%d]' % (fr['#'], a.group(1), i)] = cty
                 elif b:
-                    v = self.rv(fr, b.group(2)) if b.group(2) else None
-                    if v and v.t not in ('k', CTY[m.group(1)]):
-                        raise ParseError('initialiser of another width: ' + d)
-                    self.decl(fr, b.group(1), CTY[m.group(1)], v)
+                    v = None
+                    if b.group(2):
+                        v, ty = self.expr(fr, b.group(2))
+                        v = self.conv(v, ty, cty)
+                    self.decl(fr, b.group(1), cty, v)
                 else:
-                    raise ParseError('declaration not whitelisted: ' + s)
+                    raise ParseError('declaration not whitelisted')
             return
         m = re.fullmatch(r'(\w+)\s*\((.*)\)', s, re.S)
         if m:
             f, a = m.group(1), m.group(2).strip()
             if f in ('to', 'from', 'reduce') and a == '':
-                return self.call('red' if f == 'reduce' else f)
+                return self.call('red' if f == 'reduce' else f, caller=fr)
             if f == 'reduce' and fr.get(a, ('',))[0] == 'arr':
-                return self.call('red4', fr[a][1])
+                return self.call('red4', fr[a][1], caller=fr)
             if f == 'mul' and re.fullmatch(r'\*\s*this', a):
-                return self.call('mul', 'this')
+                return self.call('mul', fr['@'], caller=fr)
             if f == 'mul' and fr.get(a, ('',))[0] == 'obj':
-                return self.call('mul', fr[a][1])
-            if f == 'mul' and fr.get(a, ('',))[0] == 'cell' and self.ctype[fr[a][1]] == 'r':
-                return self.call('mulw', self.load(fr, a))
-        raise ParseError('glue statement not whitelisted: ' + ' '.join(s.split())[:80])
+                return self.call('mul', fr[a][1], caller=fr)
+            if f == 'mul' and fr.get(a, ('',))[0] == 'cell' and self.ctype[fr[a][1]] == 'u32':
+                return self.call('mulw', self.load(fr, a)[0], caller=fr)
+        m = re.fullmatch(r'([\w.\[\]\s]+?)=(?!=)(.*)', s, re.S)
+        if m:
+            key = self.lv(fr, m.group(1))
+            v, ty = self.expr(fr, m.group(2))
+            self.cells[key] = self.conv(v, ty, self.ctype[key])
+            return
+        raise ParseError('glue statement not whitelisted')
 
     # ---- inline asm
     def asm(self, fr, s):
         i = s.find('(')
         j = close(s, i + 1, '(', ')') if i >= 0 else -1
         if i < 0 or s[j + 1:].strip() or not re.fullmatch(r'__asm__(\s+__volatile__)?\s*', s[:i]):
-            raise ParseError('asm statement shape: ' + s[:60])
+            raise ParseError('asm statement shape')
         secs = split_top(s[i + 1:j], ':')
-        if len(secs) > 3 and ''.join(secs[3:]).strip():
-            raise ParseError('asm clobber list unsupported')
+        if len(secs) > 4 or (len(secs) == 4 and [c for c in split_top(secs[3], ',') if c.strip() not in ('', '"memory"')]):
+            raise ParseError('asm clobber list unsupported (only "memory")')
         if re.sub(r'"((?:[^"\\]|\\.)*)"', '', secs[0]).strip():
             raise ParseError('asm template is not a string literal')
         tmpl = ''.join(re.findall(r'"((?:[^"\\]|\\.)*)"', secs[0]))
-        slots = []
+        slots = []; names = {}
         for k, sec in enumerate(secs[1:3]):
             for item in (split_top(sec, ',') if sec.strip() else []):
-                m = re.fullmatch(r'\s*"([=+]?)([rl])"\s*\((.*)\)\s*', item, re.S)
-                if not m or (m.group(1) != '') != (k == 0):
-                    raise ParseError('asm operand: ' + item.strip())
-                sl = dict(out=m.group(1), t=m.group(2), e=m.group(3), v=None)
+                m = re.fullmatch(r'\s*(?:\[\s*(\w+)\s*\]\s*)?"([=+]?)(&?)([rln])"\s*\((.*)\)\s*', item, re.S)
+                if not m or (m.group(2) != '') != (k == 0) or (m.group(3) and not m.group(2)) or (m.group(4) == 'n' and k == 0):
+                    raise ParseError('asm operand: ' + short(item))
+                sl = dict(out=m.group(2), t=m.group(4), e=m.group(5).strip(), v=None, imm=None)
+                if sl['out']:
+                    cty = self.ctype.get(self.lv(fr, sl['e']))
+                    if cty == 'bool' or tcls(cty) != sl['t']:
+                        raise ParseError('output %s (%s) bound to a "%s" constraint' % (sl['e'], cty, sl['t']))
                 if sl['out'] != '=':
-                    sl['v'] = self.rv(fr, sl['e'])
-                    if sl['v'].t not in ('k', sl['t']):
-                        raise ParseError('operand %s bound to a "%s" constraint' % (sl['e'].strip(), sl['t']))
-                if sl['out'] and self.ctype.get(self.lv(fr, sl['e'])) != sl['t']:
-                    raise ParseError('output %s bound to a "%s" constraint' % (sl['e'].strip(), sl['t']))
+                    v, cty = self.expr(fr, sl['e'])
+                    if sl['t'] == 'n':
+                        if v.val is None:
+                            raise ParseError('"n" operand %s is not an integer constant expression' % sl['e'])
+                        sl['imm'] = sx(tbits(cty), v.val) if tsigned(cty) else v.val
+                    elif v.val is not None:
+                        sl['v'] = self.conv(v, cty, 'u64' if sl['t'] == 'l' else 'u32')
+                    elif tcls(cty) != sl['t']:
+                        raise ParseError('operand %s (%s) bound to a "%s" constraint' % (sl['e'], cty, sl['t']))
+                    else:
+                        sl['v'] = v
+                if m.group(1):
+                    names[m.group(1)] = len(slots)
                 slots.append(sl)
+        self.names = names
         self.cc = None        # the carry flag is not assumed to survive from one asm statement to the next
-        for ins in tmpl.replace('\\n', ' ').replace('\\t', ' ').split(';'):
+        for ins in re.sub(r'\\[nt]', ' ', tmpl).split(';'):
             ins = ins.strip()
-            if ins.startswith('{') and not ins.startswith('{%'):
+            while ins[:1] in ('{', '}'):
+                if ins[0] == '{':
+                    self.scopes.append({})
+                elif len(self.scopes) == 1:
+                    raise ParseError('unbalanced } in asm template')
+                else:
+                    self.scopes.pop()
                 ins = ins[1:].strip()
-            if ins == '}':
-                self.ptx = {}; continue
             if not ins:
                 continue
-            m = re.fullmatch(r'\.reg\s*\.pred\s+(%[A-Za-z_]\w*)', ins)
-            if m:
-                self.ptx[m.group(1)] = None; continue
-            self.insn(slots, ins)
+            try:
+                m = re.fullmatch(r'\.reg\s*\.(\w+)\s+(.*)', ins, re.S)
+                if m:
+                    t = 'f' if m.group(1) == 'pred' else {'32': 'r', '64': 'l'}.get(m.group(1)[1:]) if m.group(1)[0] in 'bus' else None
+                    regs = [x.strip() for x in m.group(2).split(',')]
+                    if t is None or not all(re.fullmatch(r'%%?[A-Za-z_$][\w$]*', x) for x in regs):
+                        raise ParseError('unsupported register declaration')
+                    for x in regs:
+                        self.scopes[-1][x.replace('%%', '%')] = [t, None]
+                    continue
+                self.insn(slots, ins)
+            except ParseError as e:
+                if e.located:
+                    raise
+                e2 = ParseError('%s  [PTX: %s]' % (e, short(ins)))
+                raise e2
         for sl in slots:
             if sl['out']:
                 if sl['v'] is None:
-                    raise ParseError('asm output %s never written' % sl['e'].strip())
+                    raise ParseError('asm output %s never written' % sl['e'])
                 self.cells[self.lv(fr, sl['e'])] = sl['v']
+
+    def slot(self, slots, tok):
+        m = re.fullmatch(r'%(\d+|\[\s*\w+\s*\])', tok)
+        if not m:
+            return None
+        k = int(m.group(1)) if m.group(1).isdigit() else self.names.get(m.group(1)[1:-1].strip(), len(slots))
+        if k >= len(slots):
+            raise ParseError('operand %s does not exist' % tok)
+        return slots[k]
+
+    def reg(self, tok):
+        tok = tok.replace('%%', '%')
+        for sc in reversed(self.scopes):
+            if tok in sc:
+                return sc[tok]
+        return None
 
     def rd(self, slots, tok, t):
         tok = tok.strip()
-        if re.fullmatch(r'\d+', tok):
-            return V(tok, 'k')
-        m = re.fullmatch(r'%(\d+)', tok)
+        m = re.fullmatch(r'(-?)\s*(0[xX][0-9a-fA-F]+|\d+)[uU]?', tok)
         if m:
-            if int(m.group(1)) >= len(slots):
-                raise ParseError('operand index out of range: ' + tok)
-            v = slots[int(m.group(1))]['v']
-        elif tok in self.ptx:
-            v = self.ptx[tok]
+            d = m.group(2)
+            val = int(d, 16) if d[:2].lower() == '0x' else int(d, 8) if len(d) > 1 and d[0] == '0' else int(d)
+            return lit(-val if m.group(1) else val, t)
+        sl = self.slot(slots, tok)
+        if sl is not None:
+            if sl['t'] == 'n':
+                return lit(sl['imm'], t)
+            v = sl['v']
+        elif self.reg(tok) is not None:
+            v = self.reg(tok)[1]
+            if self.reg(tok)[0] != t:
+                raise ParseError('register %s is declared with another size than the instruction wants' % tok)
         else:
             raise ParseError('cannot parse PTX operand ' + tok)
         if v is None:
             raise ParseError('read of unwritten ' + tok)
-        if v.t not in ('k', t):
-            raise ParseError('operand %s has another type than the instruction' % tok)
+        if v.t != t:
+            raise ParseError('operand %s has another size than the instruction wants' % tok)
         return v
 
     def wr(self, slots, tok, v, guard):
         tok = tok.strip()
-        m = re.fullmatch(r'%(\d+)', tok)
-        if m and int(m.group(1)) < len(slots) and slots[int(m.group(1))]['out'] and slots[int(m.group(1))]['t'] == v.t:
-            tgt, k = slots[int(m.group(1))], 'v'
-        elif tok in self.ptx and v.t == 'f':
-            tgt, k = self.ptx, tok
+        sl = self.slot(slots, tok)
+        if sl is not None and sl['out'] and sl['t'] == v.t:
+            tgt, k = sl, 'v'
+        elif sl is None and self.reg(tok) is not None and self.reg(tok)[0] == v.t:
+            tgt, k = self.reg(tok), 1
         else:
-            raise ParseError('write to %s (not an output of that type)' % tok)
+            raise ParseError('write to %s (not an output / declared register of that size)' % tok)
         if guard:
             if tgt[k] is None:
                 raise ParseError('predicated write to unwritten ' + tok)
-            v = self.emit(v.t, 'sel', 64 if v.t == 'l' else 32, guard, v, tgt[k])
+            v = self.emit(v.t, 'sel', BITS[v.t] if v.t != 'f' else 32, guard, v, tgt[k])
         tgt[k] = v
 
-    def prod(self, x, y, part):
-        if self.free and not isconst(x) and not isconst(y):
-            if (x.n, y.n) not in self.prods:
-                self.prods[(x.n, y.n)] = V('q%d' % (len(self.q) + 1), 'q'); self.q.append(self.prods[(x.n, y.n)].n)
-            return self.emit('r', 'p' + part, None, self.prods[(x.n, y.n)])
-        return self.emit('r', 'mul' + part, None, x, y)
+    def prod(self, x, y, part, w, sg):
+        """part lo / hi / wide of the product of two registers of width w (sg: signed instruction type)."""
+        if self.free and w == 32 and not isconst(x) and not isconst(y) and not (sg and part != 'lo'):
+            key = tuple(sorted((x.n, y.n)))
+            if key not in self.prods:
+                self.prods[key] = V('q%d' % (len(self.q) + 1), 'q'); self.q.append(self.prods[key].n)
+                self.qdesc.append(tuple(sorted((x.org or '?', y.org or '?'))))
+            return self.emit('l' if part == 'wide' else 'r', 'p' + part, None, self.prods[key])
+        if part == 'wide':
+            return self.emit('l', 'mulwides' if sg else 'mulwide', None, x, y)
+        return self.emit(C(w), 'mullo' if part == 'lo' else 'mulhis' if sg else 'mulhi', w, x, y)
 
     def insn(self, slots, ins):
         guard = None
-        m = re.fullmatch(r'@(%[A-Za-z_]\w*)\s+(.*)', ins)
+        m = re.fullmatch(r'@\s*(!?)\s*(%%?[A-Za-z_$][\w$]*)\s+(.*)', ins, re.S)
         if m:
-            guard, ins = self.rd(slots, m.group(1), 'f'), m.group(2)
-        m = re.fullmatch(r'([a-z0-9.]+)\s+(.*)', ins)
+            guard, ins = self.rd(slots, m.group(2), 'f'), m.group(3).strip()
+            if m.group(1):
+                guard = self.emit('f', 'notp', None, guard)
+        m = re.fullmatch(r'([a-z][a-z0-9]*(?:\.[a-z0-9]+)*)\s+(.*)', ins, re.S)
         if not m:
-            raise ParseError('cannot parse PTX instruction: ' + ins)
+            raise ParseError('cannot parse PTX instruction')
         parts = m.group(1).split('.'); base = parts[0]; mods = parts[1:]
-        o = split_top(m.group(2), ',')
-        ty = [x for x in mods if re.fullmatch(r'[usb](32|64)', x)]
-        if len(ty) != 1:
-            raise ParseError('instruction type: ' + ins)
-        w = int(ty[0][1:]); t = 'l' if w == 64 else 'r'
-        rest = [x for x in mods if x != ty[0]]
-        R = lambda tok, tt=t: self.rd(slots, tok, tt)
+        o = [x.strip() for x in split_top(m.group(2), ',')]
+        US = ('u32', 's32', 'u64', 's64'); BS = ('b32', 'b64')
+        tys = [x for x in mods if x in US + BS + ('pred',)]
+        rest = [x for x in mods if x not in tys]
+        R = lambda tok, t: self.rd(slots, tok, t)
+        K0 = lit(0, 'f')
         cc = None
 
-        def need(n, allowed):
-            if len(o) != n or [x for x in rest if x not in allowed]:
-                raise ParseError('unsupported PTX instruction: ' + ins)
+        def bad():
+            raise ParseError('unsupported PTX instruction')
+
+        def ty1(allowed):
+            if len(tys) != 1 or tys[0] not in allowed:
+                bad()
+            return ('p', 1) if tys[0] == 'pred' else (tys[0][0], int(tys[0][1:]))
+
+        def shape(n, *allowed):
+            if len(o) != n or len(set(rest)) != len(rest) or [x for x in rest if x not in allowed]:
+                bad()
 
         def cin(c):
             if c and self.cc is None:
-                raise ParseError('carry flag read before it is written in this asm statement: ' + ins)
+                raise ParseError('carry flag read before it is written in this asm statement')
             return self.cc if c else K0
         if base in ('add', 'addc', 'sub', 'subc'):
-            need(3, ('cc',))
-            x, y, ci = R(o[1]), R(o[2]), cin(base.endswith('c'))
+            k, w = ty1(US); shape(3, 'cc'); t = C(w)
+            x, y, ci = R(o[1], t), R(o[2], t), cin(base in ('addc', 'subc'))
             fr_, fc = ('addr', 'addc') if base.startswith('add') else ('subr', 'subb')
             res = self.emit(t, fr_, w, x, y, ci)
             if 'cc' in rest:
                 cc = self.emit('f', fc, w, x, y, ci)
-        elif base == 'mul' and w == 32 and rest in (['lo'], ['hi']):
-            need(3, ('lo', 'hi'))
-            res = self.prod(R(o[1]), R(o[2]), rest[0])
-        elif base in ('mad', 'madc') and w == 32 and rest and rest[0] in ('lo', 'hi'):
-            need(4, ('lo', 'hi', 'cc'))
-            p, z, ci = self.prod(R(o[1]), R(o[2]), rest[0]), R(o[3]), cin(base == 'madc')
-            res = self.emit('r', 'addr', 32, p, z, ci)
-            if 'cc' in rest:
-                cc = self.emit('f', 'addc', 32, p, z, ci)
-        elif base == 'setp' and w == 32 and rest in (['eq'], ['ne']):
-            need(3, ('eq', 'ne'))
-            res = self.emit('f', 'set' + rest[0], None, R(o[1]), R(o[2]))
-        elif base == 'selp':
-            need(4, ())
-            res = self.emit(t, 'sel', w, R(o[3], 'f'), R(o[1]), R(o[2]))
-        elif base == 'mov' and len(o) == 2 and not rest:
-            vec = re.fullmatch(r'\s*\{(.*)\}\s*', o[1])
-            if vec and w == 64 and len(split_top(vec.group(1), ',')) == 2:
-                lo_, hi_ = split_top(vec.group(1), ',')
-                res = self.emit('l', 'pack', None, R(lo_, 'r'), R(hi_, 'r'))
-            elif not vec and not o[0].strip().startswith('{'):
-                res = R(o[1])
-                if res.t == 'k':
-                    res = self.emit(t, 'sel', w, V('1', 'k'), res, res)
+        elif base == 'mul':
+            k, w = ty1(US)
+            if len(o) != 3 or len(rest) != 1 or rest[0] not in ('lo', 'hi', 'wide') or (rest[0] == 'wide' and w != 32):
+                bad()
+            t = C(w)
+            res = self.prod(R(o[1], t), R(o[2], t), rest[0], w, k == 's')
+        elif base in ('mad', 'madc'):
+            k, w = ty1(US); t = C(w)
+            part = [x for x in rest if x in ('lo', 'hi', 'wide')]
+            if len(part) != 1:
+                bad()
+            part = part[0]
+            shape(4, part, 'cc')
+            if part == 'wide':
+                if w != 32 or base == 'madc' or 'cc' in rest:
+                    bad()
+                p, z = self.prod(R(o[1], 'r'), R(o[2], 'r'), 'wide', 32, k == 's'), R(o[3], 'l')
+                res = self.emit('l', 'addr', 64, p, z, K0)
             else:
-                raise ParseError('unsupported mov form: ' + ins)
+                p, z, ci = self.prod(R(o[1], t), R(o[2], t), part, w, k == 's'), R(o[3], t), cin(base == 'madc')
+                res = self.emit(t, 'addr', w, p, z, ci)
+                if 'cc' in rest:
+                    cc = self.emit('f', 'addc', w, p, z, ci)
+        elif base == 'setp':
+            k, w = ty1(US + BS); t = C(w)
+            if len(o) != 3 or len(rest) != 1 or '|' in o[0]:
+                bad()
+            cmp_ = rest[0]
+            if cmp_ in ('eq', 'ne'):
+                fn = 'set' + cmp_
+            elif cmp_ in ('lt', 'le', 'gt', 'ge') and k != 'b':
+                fn = 'set' + cmp_ + ('s' if k == 's' else '')
+            elif cmp_ in ('lo', 'ls', 'hi', 'hs') and k == 'u':
+                fn = {'lo': 'setlt', 'ls': 'setle', 'hi': 'setgt', 'hs': 'setge'}[cmp_]
+            else:
+                bad()
+            res = self.emit('f', fn, w, R(o[1], t), R(o[2], t))
+        elif base == 'selp':
+            k, w = ty1(US + BS); shape(4); t = C(w)
+            res = self.emit(t, 'sel', w, R(o[3], 'f'), R(o[1], t), R(o[2], t))
+        elif base in ('and', 'or', 'xor'):
+            k, w = ty1(BS + ('pred',)); shape(3); t = 'f' if k == 'p' else C(w)
+            res = self.emit(t, 'b' + base, 32 if k == 'p' else w, R(o[1], t), R(o[2], t))
+        elif base == 'not':
+            k, w = ty1(BS + ('pred',)); shape(2)
+            res = self.emit('f', 'notp', None, R(o[1], 'f')) if k == 'p' else self.emit(C(w), 'notb', w, R(o[1], C(w)))
+        elif base == 'neg':
+            k, w = ty1(('s32', 's64')); shape(2)
+            res = self.emit(C(w), 'neg', w, R(o[1], C(w)))
+        elif base in ('shl', 'shr'):
+            k, w = ty1(US + BS); shape(3)
+            res = self.emit(C(w), 'shl' if base == 'shl' else 'shrs' if k == 's' else 'shr', w, R(o[1], C(w)), R(o[2], 'r'))
+        elif base in ('min', 'max'):
+            k, w = ty1(US); shape(3)
+            res = self.emit(C(w), base + k, w, R(o[1], C(w)), R(o[2], C(w)))
+        elif base == 'cvt':
+            if len(tys) != 2 or rest or len(o) != 2 or [x for x in tys if x not in US]:
+                bad()
+            dw, sk, sw = int(tys[0][1:]), tys[1][0], int(tys[1][1:])
+            src = R(o[1], C(sw))
+            res = src if dw == sw else self.emit('r', 'lo', None, src) if dw < sw else \
+                self.emit('l', 'sext' if sk == 's' else 'zext', None, src)
+        elif base == 'mov':
+            k, w = ty1(US + BS + ('pred',)); shape(2)
+            dvec = re.fullmatch(r'\{(.*)\}', o[0], re.S); svec = re.fullmatch(r'\{(.*)\}', o[1], re.S)
+            if svec and not dvec and w == 64 and len(split_top(svec.group(1), ',')) == 2:
+                lo_, hi_ = split_top(svec.group(1), ',')
+                res = self.emit('l', 'pack', None, R(lo_, 'r'), R(hi_, 'r'))
+            elif dvec and not svec and w == 64 and len(split_top(dvec.group(1), ',')) == 2:
+                src = R(o[1], 'l')
+                for tok, fn in zip(split_top(dvec.group(1), ','), ('lo', 'hi')):
+                    self.wr(slots, tok, self.emit('r', fn, None, src), guard)
+                return
+            elif not dvec and not svec:
+                res = R(o[1], 'f' if k == 'p' else C(w))
+            else:
+                bad()
         else:
-            raise ParseError('unsupported PTX instruction: ' + ins)
+            bad()
         self.wr(slots, o[0], res, guard)
         if cc is not None:
             if guard:
                 if self.cc is None:
-                    raise ParseError('predicated carry write: ' + ins)
+                    raise ParseError('predicated carry write without an old carry')
                 cc = self.emit('f', 'sel', 32, guard, cc, self.cc)
             self.cc = cc
 
@@ -425,72 +856,160 @@ OPS = [('Add', 'add', 'obj', False), ('Sub', 'sub', 'obj', False), ('Cneg', 'cne
        ('MulW', 'mulweq', 'u32', False), ('Red', 'red', None, False), ('Red4', 'red4', 'arr', False),
        ('MulFree', 'muleq', 'obj', True), ('MulWFree', 'mulweq', 'u32', True),
        ('MulRawFree', 'mul', 'obj', True), ('MulWRawFree', 'mulw', 'u32', True)]
+# the products the hand-written full-width invariants (Apa_Gl64, MC_Gl64!InvFree) give to q1, q2, ...
+FREE_SHAPE = {'obj': [('Lo(xa)', 'Lo(xb)'), ('Hi(xa)', 'Hi(xb)'), ('Hi(xb)', 'Lo(xa)'), ('Hi(xa)', 'Lo(xb)')],
+              'u32': [('Lo(xa)', 'Lo(xb)'), ('Hi(xa)', 'Lo(xb)')]}
 
 
-def run_op(mem, member, kind, free):
-    g = Gen(mem, free)
-    g.cells['this.val'] = V('xa', 'l'); g.ctype['this.val'] = 'l'
+def run_op(mem, consts, member, kind, free):
+    g = Gen(mem, consts, free)
+    g.cells['this.val'] = V('xa', 'l'); g.ctype['this.val'] = 'u64'
     arg = None
     if kind == 'obj':
-        g.cells['arg.val'] = V('xb', 'l'); g.ctype['arg.val'] = 'l'; arg = 'arg'
+        g.cells['arg.val'] = V('xb', 'l'); g.ctype['arg.val'] = 'u64'; arg = 'arg'
     elif kind == 'u32':
         arg = g.emit('r', 'lo', None, V('xb', 'l'))
     elif kind == 'bool':
-        arg = g.emit('r', 'setne', None, g.emit('r', 'lo', None, V('xb', 'l')), K0)
+        arg = g.emit('r', 'setne', 32, g.emit('r', 'lo', None, V('xb', 'l')), lit(0, 'r'))
     elif kind == 'arr':
         arg = 'in.t'
         for i in range(4):
-            g.cells['in.t[%d]' % i] = V('t%d' % i, 'r'); g.ctype['in.t[%d]' % i] = 'r'
-    g.call(member, arg)
-    return g.ir, g.cells['this.val'], g.q
+            g.cells['in.t[%d]' % i] = V('t%d' % i, 'r'); g.ctype['in.t[%d]' % i] = 'u32'
+    g.call(member, arg, this='this')
+    if len(g.scopes) != 1:
+        raise ParseError('member %s: a { scope of the inline PTX is never closed' % member)
+    res = g.cells['this.val']
+    live = {res.n}                                              # drop what the result does not depend on
+    for n, t, fn, w, args in reversed(g.ir):
+        if n in live:
+            live.update(a.n for a in args)
+    return [i for i in g.ir if i[0] in live], res, g.q, g.qdesc
 
 
-TLA_FN = dict(addr='AddR', addc='AddC', subr='SubR', subb='SubB', mullo='MulLo', mulhi='MulHi', plo='PLo', phi='PHi',
-              seteq='SetEq', setne='SetNe', sel='Sel', pack='Pack', lo='Lo', hi='Hi', neg='Neg32', isz='IsZ')
-TLA_K = dict(MOD='P', NEGMOD='NegMod', WC='WC')
-CPP_K = dict(MOD='GL_MOD', NEGMOD='GL_NEGMOD', WC='GL_W')
+# fn -> (TLA+ operator, takes the modulus m, C++ primitive or None, C++ primitive is a template on the register type)
+FN = dict(addr=('AddR', 1, 'addr', 1), addc=('AddC', 1, 'addc', 1), subr=('SubR', 1, 'subr', 1), subb=('SubB', 1, 'subb', 1),
+          mullo=('MulLo', 1, 'mullo', 1), mulhi=('MulHi', 1, 'mulhi', 1), mulhis=('MulHiS', 1, 'mulhis', 1),
+          mulwide=('MulWide', 0, 'mulwide', 0), mulwides=('MulWideS', 0, 'mulwides', 0),
+          plo=('PLo', 0, None, 0), phi=('PHi', 0, None, 0), pwide=('PWide', 0, None, 0),
+          seteq=('SetEq', 0, 'seteq', 1), setne=('SetNe', 0, 'setne', 1), setlt=('SetLt', 0, 'setlt', 1),
+          setle=('SetLe', 0, 'setle', 1), setgt=('SetGt', 0, 'setgt', 1), setge=('SetGe', 0, 'setge', 1),
+          setlts=('SetLtS', 1, 'setlts', 1), setles=('SetLeS', 1, 'setles', 1), setgts=('SetGtS', 1, 'setgts', 1),
+          setges=('SetGeS', 1, 'setges', 1), sel=('Sel', 0, 'sel', 1),
+          band=('BAnd', 0, 'band', 1), bor=('BOr', 0, 'bor', 1), bxor=('BXor', 0, 'bxor', 1),
+          notb=('NotB', 1, 'notb', 1), notp=('NotP', 0, 'notp', 0), neg=('Neg', 1, 'neg', 1),
+          shl=('Shl', 1, 'shl', 1), shr=('Shr', 1, 'shr', 1), shrs=('ShrS', 1, 'shrs', 1),
+          minu=('MinU', 0, 'minu', 1), maxu=('MaxU', 0, 'maxu', 1), mins=('MinS', 1, 'mins', 1), maxs=('MaxS', 1, 'maxs', 1),
+          zext=('ZExt', 0, 'zext', 0), sext=('SExt', 0, 'sext', 0), pack=('Pack', 0, 'pack', 0),
+          lo=('Lo', 0, 'lo32', 0), hi=('Hi', 0, 'hi32', 0))
 CPP_T = dict(r='uint32_t', l='uint64_t', f='uint32_t')
+
+
+def tla_lit(val, t):
+    """a literal as a polynomial in Beta = 2^32 (balanced digits): exact at W = 32, scaled with the width below."""
+    if t == 'f' or val < 4:
+        return str(val)
+    if val == 0xffffffff00000001:
+        return 'P'
+    if val == 0xffffffff:
+        return 'WC'
+    ds = []; n = val
+    while n:
+        d = n & 0xffffffff; n >>= 32
+        if d > 0x80000000:
+            d -= 1 << 32; n += 1
+        ds.append(d)
+    terms = []
+    for i in reversed(range(len(ds))):
+        d = ds[i]; c = abs(d)
+        if not d:
+            continue
+        if c <= 0xffff:
+            cs = str(c)
+        else:
+            k = (c & -c).bit_length() - 1
+            if k >= 16:
+                cs = '((Beta \\div %d) * %d)' % (1 << (32 - k), c >> k) if c >> k != 1 else '(Beta \\div %d)' % (1 << (32 - k))
+            else:
+                cs = '(((Beta \\div 65536) * %d) + %d)' % (c >> 16, c & 0xffff)
+        pw = ['', 'Beta', 'T', '(T * Beta)'][i]
+        terms.append((d < 0, cs if not pw else pw if cs == '1' else '(%s * %s)' % (pw, cs)))
+    e = terms[0][1]
+    for neg, tx in terms[1:]:
+        e = '(%s %s %s)' % (e, '-' if neg else '+', tx)
+    return 'Lit(%s, %s)' % ('Beta' if t == 'r' else 'T', e)
+
+
+def tla_shamt(k):
+    """a literal shift amount in units of the register width: 32a + b -> a*W + b for |b| <= 8, 32a + 16 -> a*W + W/2."""
+    a, b = (k + 8) // 32, (k + 8) % 32 - 8
+    if a == 0 or k > 72:
+        return str(k)
+    aw = 'W' if a == 1 else '(%d * W)' % a
+    if b == 16:
+        return '(%s + (W \\div 2))' % aw
+    if b > 8:
+        return str(k)
+    return aw if b == 0 else '(%s %s %d)' % (aw, '+' if b > 0 else '-', abs(b))
+
+
+def tla_arg(a, shamt=False):
+    if a.val is None:
+        return a.n
+    return tla_shamt(a.val) if shamt else tla_lit(a.val, a.t)
+
+
+def cpp_arg(a):
+    if a.val is None:
+        return a.n
+    return '0x%xULL' % a.val if a.t == 'l' else '0x%xU' % a.val
 
 
 def tla_body(ir, res):
     lets = []
     for n, t, fn, w, args in ir:
-        a = [TLA_K.get(x, x) for x in args]
-        if fn in ('addr', 'addc', 'subr', 'subb'):
+        a = [tla_arg(x, fn in ('shl', 'shr', 'shrs') and i == 1) for i, x in enumerate(args)]
+        if FN[fn][1]:
             a = ['Beta' if w == 32 else 'T'] + a
-        lets.append('%s == %s(%s)' % (n, TLA_FN[fn], ', '.join(a)))
-    r = TLA_K.get(res.n, res.n)
+        lets.append('%s == %s(%s)' % (n, FN[fn][0], ', '.join(a)))
+    r = tla_arg(res)
     return ('  LET ' + '\n      '.join(lets) + '\n  IN ' + r) if lets else '  ' + r
 
 
 def cpp_body(ir, res):
     out = []
     for n, t, fn, w, args in ir:
-        name = fn + str(w) if fn in ('addr', 'addc', 'subr', 'subb', 'sel') else {'lo': 'lo32', 'hi': 'hi32', 'neg': 'neg32'}.get(fn, fn)
-        out.append('    const %s %s = %s(%s);' % (CPP_T[t], n, name, ', '.join(CPP_K.get(x, x) for x in args)))
-    return '\n'.join(out + ['    return %s;' % CPP_K.get(res.n, res.n)])
+        name = FN[fn][2] + ('<uint%d_t>' % (64 if w == 64 else 32) if FN[fn][3] else '')
+        out.append('    const %s %s = %s(%s);' % (CPP_T[t], n, name, ', '.join(cpp_arg(x) for x in args)))
+    return '\n'.join(out + ['    return %s;' % cpp_arg(res)])
 
 
 def generate(src):
     """-> (Gl64_gen.tla text, ptx_exec_gen.hpp text, info)."""
     path = os.path.join(src, 'gl64_t.cuh')
     prog = {}
+    consts = {}
     for arch in ARCHS:
-        mem = members(preprocess(path, arch))
+        mem, consts[arch] = members(preprocess(path, arch))
         for name, member, kind, free in OPS:
-            prog[(name, arch)] = run_op(mem, member, kind, free)
+            prog[(name, arch)] = run_op(mem, consts[arch], member, kind, free)
     tla = ['---- MODULE Gl64_gen ----',
            '(* GENERATED by tools/ptx2tla.py from the inline PTX of gl64_t.cuh (current tree); suffix = __CUDA_ARCH__ variant. *)',
            'EXTENDS Ptx']
     cpp = ['// GENERATED by tools/ptx2tla.py from the inline PTX of gl64_t.cuh (current tree).', '#pragma once',
            '#include <string>', '#include "ptx_prims.hpp"', 'namespace ptx {']
-    info = dict(same={}, insns={}, nfree={})
+    info = dict(same={}, insns={}, nfree={}, free_ok={}, prims=sorted({i[2] for p in prog.values() for i in p[0]}),
+                consts={'%s@%d' % (k, a): '0x%x' % v[0] for a in ARCHS for k, v in consts[a].items()})
     for name, member, kind, free in OPS:
         bodies = {}
         for arch in ARCHS:
-            ir, res, q = prog[(name, arch)]
-            par = ['t0', 't1', 't2', 't3'] if kind == 'arr' else ['xa', 'xb'] + q
-            bodies[arch] = tla_body(ir, res)
+            ir, res, q, qdesc = prog[(name, arch)]
+            npar = len(FREE_SHAPE[kind]) if free else 0
+            ok = not free or [tuple(sorted(d)) for d in qdesc] == [tuple(sorted(d)) for d in FREE_SHAPE[kind]]
+            info['free_ok'][name] = info['free_ok'].get(name, True) and ok
+            par = ['t0', 't1', 't2', 't3'] if kind == 'arr' else ['xa', 'xb'] + ['q%d' % (i + 1) for i in range(npar)]
+            # products in another number or order than the hand-written invariants expect: a stub of the right arity
+            # (lib/c20.py then leaves the free-product obligations out; the products stay covered by TLC and replay)
+            bodies[arch] = tla_body(ir, res) if ok else '  %s%d(xa, xb)' % (name[:-4], arch)
             info['insns']['%s%d' % (name, arch)] = len(ir)
             info['nfree'][name] = len(q)
             same = arch != ARCHS[0] and bodies[arch] == bodies[ARCHS[0]] and q == prog[(name, ARCHS[0])][2]
